@@ -4,14 +4,16 @@
      (1) every [step] of any thread lowers Phi by at least 1            (step_decreases)
      (2) every [spurious] wake-up raises Phi by at most 2                (spurious_raises)
      (3) Phi init = B0 N na, and Phi s <= Bmax N na for EVERY state      (Phi_init, Phi_le_Bmax)
+         B0 N na = (6N + 6) + nblocks * (6 + 2N) + na * (7 + 2N)        (B0_closed_form, N >= 1, na >= 1)
    for every N, na, lt, both values of [fixed], and every state (reachable or not: the argument is local,
    it needs no invariant).  Why it works: a thread can repeat a program point only by going round a
    `while (...) pthread_cond_wait` loop, each round needs a wake-up, and wake-ups come from broadcasts (or are
-   spurious).  So every broadcast is charged, at the broadcaster, K = 2*N for the at most N threads it can move
+   spurious).  So every broadcast is charged, at the broadcaster, 2 for each of the at most N threads it can move
    from "blocked in cond_wait" (potential p) to "woken" (potential p+2: re-acquire, re-test, wait again), and
-   the coordinator's `state = RUN` pre-pays one complete worker round (9 steps + one broadcast) per worker.
+   the coordinator's `state[j] = RUN` pre-pays one complete round of worker j (9 steps + its broadcast).
    Broadcasts themselves are bounded: one per block and one at the end by the coordinator, one per RUN by a
-   worker.
+   worker.  Phi = cpot (coordinator: what is left of the for loop and the tail) + crt (threads still to create)
+   + the sum over the workers of wpot (program counter, trial->state).
 
    Consequences (fixed = true and N >= 1, na >= 2 only where C12_Proofs is used):
      exec_bound           #steps + Phi(end) <= Phi(start) + 2 * #spurious     along every execution
@@ -19,7 +21,9 @@
      no_infinite_steps    no infinite execution has a spurious-free tail
      eventually_finished  from every reachable state, against every scheduler that may also inject up to k
                           spurious wake-ups (k arbitrary), a finished state with result = walk_spec is
-                          inevitable and no state before it is stuck. *)
+                          inevitable and no state before it is stuck.
+   The bound is nearly exact: the longest schedule of small configurations (extract/handshake_driver `longest`,
+   a test run by the check) is B0 - 2 for N = 1 and within 8 of B0 for N <= 3, na <= 5. *)
 From Coq Require Import List Arith Bool Lia Wf_nat.
 From PS Require Import Handshake C12_Proofs.
 Import ListNotations.
